@@ -1,6 +1,6 @@
 (* extract/Entry_E5d.v — entry points of the reference bookkeeping model (C08). *)
 From Coq Require Import ZArith QArith List String Bool.
-From Pico Require Import Num PyStr Value CheckPico Refs Noise Termination Shape Stroke Entry_E3 Entry_E5a Entry_E5b Entry_E5c.
+From Pico Require Import Num PyStr Value G_geom G_transform CheckPico Refs Noise Termination Shape Stroke Gradient Entry_E1 Entry_E3 Entry_E5a Entry_E5b Entry_E5c.
 Import ListNotations.
 Local Open Scope string_scope.
 
@@ -70,6 +70,19 @@ Definition entry_E5d (orc : oracle) (name : string) (v : value) : option value :
   else if name =? "dash_array" then Some (v_res (fun l => VL (map VQ l)) (dash_array (N:=QOps) (shape_of v)))
   else if name =? "stroke_split" then
     Some (v_res (fun l => VL (map v_shape l)) (stroke_split (QMath orc) (QSkia orc) (shape_of (arg 0 v)) (getQ (arg 1 v))))
+  else if name =? "transformed_gradient" then
+    let gv := arg 0 v in
+    let pr (x : value) := (getQ (arg 0 x), getQ (arg 1 x)) in
+    let g := @mk_grad QOps (getB (arg 0 gv)) (pr (arg 1 gv)) (pr (arg 2 gv)) (getQ (arg 3 gv)) (getQ (arg 4 gv)) (aff_of (arg 5 gv)) (getB (arg 6 gv)) in
+    Some (v_res (fun r : @grad QOps => VL [VL [VQ (fst (g_p1 r)); VQ (snd (g_p1 r))]; VL [VQ (fst (g_p2 r)); VQ (snd (g_p2 r))]; v_aff (g_tf r); VB (negb (g_bbox_units r))])
+                (transformed_gradient (N:=QOps) (round_nd QOps 6) (fun a => Affine2D_round QOps a 6) g (rect_of (arg 1 v)) (aff_of (arg 2 v))))
+  else if name =? "resolve_chain" then
+    let maps := map (fun m => map (fun e => (getS (arg 0 e), getS (arg 1 e))) (getL m)) (getL (arg 1 v)) in
+    let fields := map (fun f => map getS (getL f)) (getL (arg 0 v)) in
+    let nstops := map (fun x => Z.to_nat (getZ x)) (getL (arg 2 v)) in
+    (* stops are represented by their owner's index; only the count matters here *)
+    let stops := fold_right (fun n acc => match n with O => acc | _ => n end) O nstops in
+    Some (VL [VL (map (fun e => VL [VS (fst e); VS (snd e)]) (resolve_chain fields maps)); VQ (inject_Z (Z.of_nat stops))])
   else if name =? "stroke_split_ids" then
     Some (VL (map v_optS (stroke_split_ids (optS_of (arg 0 v)) (getB (arg 1 v)))))
   else None.
